@@ -52,9 +52,17 @@ def U():
     return _U
 
 
+BACKLOG_PAIRS = [("reg1", "reg2"), ("r_t10", "m_t10"), ("p_a_t10", "reg2"), ("reg2", "del12"), ("m_t10", "m_t20")]
+
+
 def cases(tier):
     depth = 2 if tier == "quick" else 3
-    return [(backend, first, depth, tier) for backend in ("sql", "kv") for first in U()]
+    out = [(backend, first, depth, tier) for backend in ("sql", "kv") for first in U()]
+    # LMDB: two acknowledged events are waiting in the writer's queue when it gets to run; a failure while the second is applied
+    # must not take the first one with it (and vice versa)
+    for a, b in BACKLOG_PAIRS:
+        out.append(("kv-backlog", a, b, tier))
+    return out
 
 
 def describe(case):
@@ -79,7 +87,8 @@ def load_dump(w, dump):
 
 def fresh_world(backend, dump):
     w = World(backend, storage_options={"stats_interval": 1e15}, message_timeout=1e300)
-    load_dump(w, dump)
+    if dump is not None:
+        load_dump(w, dump)
     sub = w.connect("s", "2.2.2.2")
     wr = w.connect("w", "1.1.1.1")
     w.run(1e6)
@@ -230,7 +239,76 @@ def enumerate_faults(backend, S, opname, op, viol, cid, stats):
                 w.close()
 
 
+def run_backlog(case):
+    _, a, b, tier = case
+    uni = U()
+    viol = []
+    cid = "kv|U7|backlog"
+    stats = {"faulted_runs": 0}
+
+    def world_with_backlog(prestore):
+        w = fresh_world("kv", None)
+        for nm in prestore:
+            w.send("w", ["EVENT", uni[nm]], 1e6)
+        # both events are accepted (OK sent) while the writer thread has not run yet
+        for nm in (a, b):
+            w.conns["w"].deliver(json.dumps(["EVENT", uni[nm]]))
+            w.loop.drain(horizon=1e6, hold=("kvwrite",))
+        return w
+
+    def final(w):
+        return store.sdigest(w.dump())
+
+    for prestore in ((), ("r_t5",)):
+        refs = {}
+        for label, names in (("none", ()), ("a", (a,)), ("b", (b,)), ("ab", (a, b))):
+            w = fresh_world("kv", None)
+            try:
+                for nm in prestore + names:
+                    w.send("w", ["EVENT", uni[nm]], 1e6)
+                refs[label] = final(w)
+            finally:
+                w.close()
+        w = world_with_backlog(prestore)
+        try:
+            c0 = mutation_count(w)
+            w.run(1e6)
+            n = mutation_count(w) - c0
+            if final(w) != refs["ab"]:
+                raise HarnessError("backlog run without faults differs from the sequential reference")
+        finally:
+            w.close()
+        for k in range(1, n + 1):
+            sig = "%s,%s|pre=%s|error@%d/%d" % (a, b, ",".join(prestore) or "-", k, n)
+            w = world_with_backlog(prestore)
+            try:
+                arm(w, "error", k)
+                try:
+                    w.run(1e6)
+                finally:
+                    disarm(w)
+                stats["faulted_runs"] += 1
+                d = final(w)
+                if d == refs["ab"]:
+                    continue  # the fault hit nothing that mattered (e.g. a no-op delete)
+                if d not in (refs["a"], refs["b"]):
+                    what = "BOTH events are missing" if d == refs["none"] else "the store matches no combination of whole events"
+                    viol.append({"case": cid, "clause": "failure-of-one-event-spares-the-others", "sig": sig,
+                                 "detail": "two acknowledged events were queued for the writer; an engine error at mutation %d/%d: %s | %s" % (k, n, what, sig)})
+                inc = consistent("kv", w.dump())
+                if inc:
+                    viol.append({"case": cid, "clause": "no-partial-effects", "sig": sig, "detail": "%r | %s" % (inc[:2], sig)})
+                follow_up(w, viol, cid, sig, "engine error at %d/%d with two queued events" % (k, n))
+            finally:
+                w.close()
+    return {"id": "%s|%s,%s" % (cid, a, b), "viol": viol, "outcome": None, "evals": stats["faulted_runs"], "nontrivial": stats["faulted_runs"] > 0,
+            "desc": {"backend": "kv-backlog", "first": a, "depth": b, "tier": tier}, "extra": {"backlog_faulted_executions": stats["faulted_runs"]},
+            "sample": {"case": "kv-backlog", "events": [a, b], "faulted_executions": stats["faulted_runs"]}}
+
+
 def run_case(case):
+    if case[0] == "kv-backlog":
+        return run_backlog(case)
     backend, first, depth, tier = case
     uni = U()
     sess = seq.session(backend)
